@@ -132,6 +132,10 @@ func genItem(r *Rng, n int, level int) Item {
 		if r.Chance(1, 4) {
 			return Item{K: "i", N: 1000 + n}
 		}
+		if level == 0 && r.Chance(1, 12) {
+			// a blank cell that is still a unique item: a Stringer whose text is empty
+			return Item{K: "S", S: ""}
+		}
 		if level < 0 && r.Chance(1, 10) {
 			// blank cells: nil and the empty string (a table may treat them specially)
 			return []Item{{K: "n"}, {K: "s", S: ""}}[r.Intn(2)]
@@ -155,6 +159,9 @@ func genItem(r *Rng, n int, level int) Item {
 	case 3:
 		return Item{K: "f", N: r.Range(-9, 99)}
 	case 4, 5, 6, 7:
+		if r.Chance(1, 16) {
+			return Item{K: "x", S: "w", N: []int{31, 32, 33, 63, 64, 65, 66, 127, 128, 129, 130, 255, 256, 257}[r.Intn(14)]}
+		}
 		return Item{K: "s", S: genText(r, n, true)}
 	case 8:
 		return Item{K: "S", S: genText(r, n, true)}
